@@ -180,6 +180,18 @@ def _proj_axioms(eng):
             z3.ForAll([a, b, t], ALL_TAG(z3.Concat(a, b), t) == z3.And(ALL_TAG(a, t), ALL_TAG(b, t)), patterns=[ALL_TAG(z3.Concat(a, b), t)]),
             z3.ForAll([e, t], ALL_TAG(z3.Unit(e), t) == (Ev.tag(e) == t), patterns=[ALL_TAG(z3.Unit(e), t)])]
 
+def _filter_axioms(eng):
+    import z3
+    from pyvc.sorts import SeqV, SetV, Val
+    from pyvc.models import FILTER_OUT
+    a, b = z3.Consts("fo!a fo!b", SeqV)
+    x = z3.Const("fo!x", Val)
+    s = z3.Const("fo!s", SetV)
+    return [z3.ForAll([s], FILTER_OUT(z3.Empty(SeqV), s) == z3.Empty(SeqV), patterns=[FILTER_OUT(z3.Empty(SeqV), s)]),
+            z3.ForAll([a, b, s], FILTER_OUT(z3.Concat(a, b), s) == z3.Concat(FILTER_OUT(a, s), FILTER_OUT(b, s)), patterns=[FILTER_OUT(z3.Concat(a, b), s)]),
+            z3.ForAll([x, s], FILTER_OUT(z3.Unit(x), s) == z3.If(z3.Select(s, x), z3.Empty(SeqV), z3.Unit(x)), patterns=[FILTER_OUT(z3.Unit(x), s)])]
+
+axiom("filter_out", _filter_axioms, "definition of the spec function filter_out over value sequences (empty / concatenation / unit)")
 axiom("event-projections", _proj_axioms, "definitions of proj_a / all_b / all_tag over event sequences (empty / concatenation / unit)")
 axiom("count_failed", _count_failed_axioms, "definition of the spec function count_failed over offer events (empty / concatenation / unit)")
 
@@ -341,3 +353,33 @@ contract("iface::ext.twisted.internet.threads.deferToThreadPool", params=["react
 contract("iface::Reactor.getThreadPool", params=["self"], returns="Any", modifies=[], notes="reactor.getThreadPool()")
 fields("ThreadedWriter", _destination="role:Dest", _queue="role:Queue", _mainReactor="role:Reactor", _thread="Opt[role:Thread]")
 fields("role:Thread", join="Any")
+
+# ---------------------------------------------------------------- readers (C20): library models
+contract("iface::ext.pprint.pformat", params=["object", "width"], defaults={"width": 80}, returns="str", modifies=[],
+         notes="pprint.pformat(value, width=...): returns a str for JSON-decoded values (dict/list/str/int/float/bool/None); never raises for them")
+contract("iface::ext.datetime.datetime.utcfromtimestamp", params=["t"], returns="role:DateTime", modifies=[],
+         notes="datetime.utcfromtimestamp(t) for a float timestamp in the platform's range (Eliot's timestamps are time.time() values): a datetime; "
+               "out-of-range or non-numeric values raise (known finding C20-F2)")
+contract("iface::ext.datetime.datetime.fromtimestamp", params=["t"], returns="role:DateTime", modifies=[], notes="as utcfromtimestamp, local time")
+contract("iface::DateTime.isoformat", params=["self", "sep"], defaults={"sep": "T"}, returns="str", modifies=[], notes="datetime.isoformat(): str")
+contract("iface::ext.json.dumps", returns="str", modifies=[], notes="json.dumps of a JSON-decoded value (any separators/cls): returns a str without raw newlines; never raises for such values")
+contract("iface::ext.json.loads", params=["s"], returns="Any", modifies=[],
+         notes="json.loads(line): any JSON value (dict, list, str, int, float, bool, None) or raises a ValueError subclass (JSONDecodeError, "
+               "UnicodeDecodeError) -- RecursionError for pathological nesting is handled separately; keys of a JSON object are str",
+         ensures=[("object-keys-are-text", "implies(is_dict(result), forall(lambda k: implies(contains(dict_of(result), k), is_str(k)), 'val'))")],
+         raises=[{"cls": "ValueError", "exact": False, "ensures": []}, {"cls": "RecursionError", "exact": False, "ensures": []}])
+
+global_hint("eliot/prettyprint.py:stdin", "role:LineStream")
+global_hint("eliot/prettyprint.py:stdout", "role:OutStream")
+contract("iface::OutStream.write", params=["self", "text"], returns="Any", modifies=["#IO"],
+         notes="sys.stdout.write(text): appends to the output (recorded); never raises for str",
+         ensures=[("recorded", "IO == old(IO) + [Ev('out', self, text)]")])
+contract("iface::ext.argparse.ArgumentParser", returns="role:ArgParser", modifies=[], notes="argparse.ArgumentParser(...)")
+contract("iface::ArgParser.add_argument", returns="Any", modifies=[], notes="ArgumentParser.add_argument(...)")
+contract("iface::ArgParser.parse_args", params=["self"], returns="role:Args", modifies=[], notes="ArgumentParser.parse_args(): the parsed options")
+fields("role:Args", compact="bool", local_timezone="bool")
+
+contract("iface::Eval.__call__", returns="Any", modifies=["#CALLS"],
+         notes="eval(code, globals, locals) of the user's filter expression: an arbitrary computation over the supplied locals; returns anything or raises anything",
+         ensures=[("recorded", "CALLS == old(CALLS) + [Ev('ret', self, args, kwargs, result)]")],
+         raises=[{"cls": "BaseException", "ensures": [("recorded", "CALLS == old(CALLS) + [Ev('exc', self, args, kwargs, exc)]")]}])
